@@ -203,9 +203,10 @@ def native_replay(case):
     names = list(inspect.signature(fn).parameters)
     args = [params[n] for n in names if n in params]
     env = dict(params)
+    natives = {"$module": module}
     out = {"requires": [], "ensures": [], "raised": None}
     for r in c.requires:
-        out["requires"].append([r, native_eval.eval_clause(r, env, None, c.model)])
+        out["requires"].append([r, native_eval.eval_clause(r, env, None, c.model, None, natives)])
     old_env = copy.deepcopy(env)
     pre_ids = native_eval.collect_ids(env.values())
     try:
@@ -218,7 +219,7 @@ def native_replay(case):
     env["result"] = result
     if out["raised"] is None:
         for e in c.ensures:
-            out["ensures"].append([e, native_eval.eval_clause(e, env, old_env, c.model, pre_ids)])
+            out["ensures"].append([e, native_eval.eval_clause(e, env, old_env, c.model, pre_ids, natives)])
     out["violated"] = [t for t, v in out["ensures"] if v is False]
     if out["raised"] is not None and out["raised"] not in c.raises:
         out["violated"].append("no-exception:" + out["raised"])
